@@ -1279,7 +1279,7 @@ func (m *prioMon) spawnV1Control(c Cfg, v1 *v1Ctl, inputs []chan Item) {
 	case "stop":
 		vrt.Spawn("stopper", func() {
 			v1.stop()
-			m.stopReturned = true
+			m.stopDone()
 			if c.Disc == "s1" && m.handling != 0 {
 				m.f.fail("C16", "Simple.Stop() returned while %d Handle calls are still running", m.handling)
 			}
@@ -1293,7 +1293,7 @@ func (m *prioMon) spawnV1Control(c Cfg, v1 *v1Ctl, inputs []chan Item) {
 	case "twice":
 		// Stop() twice in a row from one goroutine and once more from another
 		after := func() {
-			m.stopReturned = true
+			m.stopDone()
 			if c.Disc == "s1" && m.handling != 0 {
 				m.f.fail("C16", "Simple.Stop() returned while %d Handle calls are still running", m.handling)
 				m.f.fail("C19", "Simple.Stop() returned while %d handler goroutines are still running user code", m.handling)
@@ -1314,7 +1314,7 @@ func (m *prioMon) spawnV1Control(c Cfg, v1 *v1Ctl, inputs []chan Item) {
 		vrt.Spawn("stopper", func() {
 			if c.Stop == "stop+graceful" {
 				v1.stop()
-				m.stopReturned = true
+				m.stopDone()
 				if c.Disc == "s1" && m.handling != 0 {
 					m.f.fail("C16", "Simple.Stop() returned while %d Handle calls are still running", m.handling)
 				}
@@ -1329,7 +1329,7 @@ func (m *prioMon) spawnV1Control(c Cfg, v1 *v1Ctl, inputs []chan Item) {
 		// Stop() from one goroutine, context cancellation from another, in any order
 		vrt.Spawn("stopper", func() {
 			v1.stop()
-			m.stopReturned = true
+			m.stopDone()
 			if c.Disc == "s1" && m.handling != 0 {
 				m.f.fail("C16", "Simple.Stop() returned while %d Handle calls are still running", m.handling)
 			}
@@ -1516,6 +1516,17 @@ func (m *prioMon) spawnScript(c Cfg, v1 *v1Ctl, inputs []chan Item) {
 		vrt.Mark(vrt.Mix(uint64(used), 0xd0e))
 		v1.scriptDone = true
 	})
+}
+
+// stopDone: Stop() has just returned to its caller.
+func (m *prioMon) stopDone() {
+	m.stopReturned = true
+	if !m.errClosed {
+		// Stop() waits for the completion latch, which the discipline's goroutine trips
+		// as the very last thing, after it has closed Err()
+		m.f.fail("C19", "Stop() returned although the discipline has not terminated (Err() is not closed): its goroutine is still running")
+		m.f.fail("C16", "Stop() returned although the discipline has not terminated (Err() is not closed)")
+	}
 }
 
 func isRough(c Cfg) bool {
